@@ -821,6 +821,24 @@ fn main() {
         ctx.harness(Config::new("writer_pool16", ctx.by_tier(1, 2)), |ch| {
             writer_body(ch, &scripts_q[..2], &[16, 8], &[WEnd::Finish], false, CostModel::Preempt)
         });
+        // W1c: block boundaries are a function of the write sequence alone: a write that leaves the staging
+        // buffer 2, 1, 0 bytes short of full / exactly full / 1 over, reached by one call or by two, then more data
+        // (the single-threaded writer cuts at 65495 staged bytes; cutting anywhere else changes the file and every
+        // later virtual position although the payload still round-trips)
+        {
+            let mut scripts_b: Vec<WScript> = Vec::new();
+            for k in [65493usize, 65494, 65495, 65496, 65497] {
+                let n1: &'static str = Box::leak(format!("one-write-{k}-then-5").into_boxed_str());
+                scripts_b.push(mk(n1, vec![W(k), W(5)]));
+                let n2: &'static str = Box::leak(format!("2-plus-{}-then-5", k - 2).into_boxed_str());
+                scripts_b.push(mk(n2, vec![W(2), W(k - 2), W(5)]));
+                let n3: &'static str = Box::leak(format!("one-write-{k}-flush-3").into_boxed_str());
+                scripts_b.push(mk(n3, vec![W(k), F, W(3)]));
+            }
+            ctx.harness(Config::new("writer_staging_boundaries", ctx.by_tier(0, 1)), |ch| {
+                writer_body(ch, &scripts_b, &[2], &[WEnd::Finish], false, CostModel::Preempt)
+            });
+        }
         // W4: short-write / Interrupted sinks (C14's short-write clause for the multithreaded writer)
         ctx.harness(Config::new("writer_short_sinks", ctx.by_tier(1, 2)), |ch| {
             writer_body_with(ch, &scripts_q[..3], &pools[..2], &[WEnd::Finish, WEnd::Drop], false, CostModel::Preempt, &[SinkMode::OneByte, SinkMode::Half, SinkMode::Alternating])
